@@ -2,6 +2,8 @@ import Proofs.C12
 import Proofs.C02Hist
 import Proofs.C02Cross
 import Proofs.C02Nested
+import Proofs.C02Vint
+import Model.StringSpec
 /-!
 # C02 — Marshal then Unmarshal gives back the value (property theorems)
 
@@ -551,9 +553,7 @@ theorem C02_nested_roundtrip (p : Nat) (t : CqlTy) (ty : GoTy) (g : GoVal) (h : 
   | tuple fs _ hside ih => exact rt_tuple_struct p _ _ _ (fieldsRT_of p fs ih hside)
 
 /-- non-vacuity: list<map<text, list<int>>> — a slice holding a nil map and a map from "b" to a slice of *int (one
-    pointing to 7, one nil = a null element, protocol 4).  (Maps with two or more entries: the hypothesis `KeysDistinct`
-    is stated with the model's key comparison `==` of `GoVal`, a derived instance the kernel cannot unfold — it is an
-    assumption there, see props `partial`.) -/
+    pointing to 7, one nil = a null element, protocol 4) -/
 example : Clean 4 (.list (.map .text (.list .int))) (.slice (.map (.str false) (.slice (.ptr (.int .int false)))))
     (.slice false [.map true [],
                    .map false [(.str false [98], .slice false [.ptr (.int .int false 7), .nilptr])]]) := by
@@ -575,6 +575,22 @@ example : Clean 4 (.list (.map .text (.list .int))) (.slice (.map (.str false) (
       · exact .ptr 1 rfl (.leaf (.int (col := .int) rfl _ _ _ (by decide))) (by
           unfold NonNull; simp [marshal, marshalScalar, marshalIntColumn, optM, marshalIntKind])
       · exact .nilptr _ 0 _ rfl
+
+/-- non-vacuity for maps of any size: `KeysDistinct` is discharged by computation (`keysDistinct_of_B`; `==` on Go values
+    is the structural `GoVal.beqV` of Model/Marshal.lean) — map<text, int> ↔ map[string]int with three entries -/
+example : Clean 2 (.map .text .int) (.map (.str false) (.int .int false))
+    (.map false [(.str false [97], .int .int false 1), (.str false [98], .int .int false (-2)), (.str false [], .int .int false 0)]) := by
+  refine .map ?_ ?_ ?_ (keysDistinct_of_B _ (by decide))
+  · intro kv hkv
+    simp at hkv
+    rcases hkv with rfl | rfl | rfl <;> exact .leaf (.str (Or.inr (Or.inl rfl)) _ _)
+  · intro kv hkv
+    simp at hkv
+    rcases hkv with rfl | rfl | rfl <;> exact .leaf (.int (col := .int) rfl _ _ _ (by decide))
+  · intro _ kv hkv
+    simp at hkv
+    rcases hkv with rfl | rfl | rfl <;>
+      (unfold NonNull; simp [marshal, marshalScalar, marshalVarcharColumn, marshalIntColumn, optM, marshalIntKind])
 
 /-- non-vacuity of the tuple constructor: list<tuple<int, text>> ↔ []struct{ *int; string } = [(null, "A")] -/
 example : Clean 4 (.list (.tuple [.int, .text])) (.slice (.struct [.ptr (.int .int false), .str false]))
@@ -618,6 +634,113 @@ example : FieldsRT 4 [.int, .list .text, .text] [.ptr (.int .int false), .slice 
     subst hb; simp [encInt]
   · exact C02_nested_roundtrip 4 _ _ _ (.nilSlice (Or.inl rfl) _)
   · intro b hb; simp [marshal] at hb
+
+/-- duration, the zig-zag layer: decIntZigZag (marshal.go) inverts encIntZigZag on EVERY int64 (months, days and
+    nanoseconds of a duration are written as vints of their zig-zag codes).  The byte layer — decVint's loop after
+    encVint's — is tied to the code (GenTie.C12.encVint / decVint) and compared by `rt` / `rtsame`, not yet proved inverse. -/
+theorem C02_zigzag_roundtrip (n : Int) (h : fitsS 8 n = true) : decIntZigZag (encIntZigZag n) = n := by
+  rw [C12Vint.encIntZigZag_spec n h, C02Vint.decIntZigZag_spec _ (C12Vint.zigzag_lt n h), C12Vint.unzigzag_zigzag]
+
+example : fitsS 8 (-9223372036854775808) = true := by decide
+
+/-! ## STRING SOURCES (op `sstr`): refused, or written as the value the string denotes — never silently altered -/
+
+/-- what the specification `StrSpec.strSpec` (Model/StringSpec.lean, compared with the real code on every generated string)
+    demands of a Go string bound to an inet column: (1) an answer `ok bytes back` is given ONLY for a string that is an IP
+    address literal WITHOUT zone; the bytes are that address (IPv4-mapped ↦ 4 bytes) and the string a `*string` gets back
+    denotes the same address again; (2) a literal with a zone — a value the column cannot hold — must be refused, whatever
+    the address and the zone (the class seed C02-8 alters: the zone was dropped silently); (3) a string that is no literal
+    at all must be refused. -/
+theorem C02_inet_string_no_silent_loss (s : Bytes) :
+    (∀ b back, StrSpec.strSpec .inet s = .ok b back →
+      ∃ a, StrSpec.parseIP s = some (a, []) ∧ b = StrSpec.unmap a ∧
+        ∃ a', StrSpec.parseIP back = some (a', []) ∧ StrSpec.unmap a' = b) ∧
+    (∀ a z, StrSpec.parseIP s = some (a, z) → z ≠ [] → StrSpec.strSpec .inet s = .merr) ∧
+    (StrSpec.parseIP s = none → StrSpec.strSpec .inet s = .merr) := by
+  refine ⟨?_, ?_, ?_⟩
+  · intro b back h
+    simp only [StrSpec.strSpec] at h
+    cases hp : StrSpec.parseIP s with
+    | none => rw [hp] at h; cases h
+    | some az =>
+      obtain ⟨a, z⟩ := az
+      rw [hp] at h
+      simp only at h
+      by_cases hz : z = []
+      · subst hz
+        simp only [ne_eq, not_true_eq_false, if_false] at h
+        cases hb : StrSpec.parseIP (Marshal.ipString (StrSpec.unmap a)) with
+        | none => rw [hb] at h; cases h
+        | some az' =>
+          obtain ⟨a', z'⟩ := az'
+          rw [hb] at h
+          cases z' with
+          | nil =>
+            simp only at h
+            split at h
+            · rename_i hu
+              injection h with h1 h2
+              subst h1; subst h2
+              exact ⟨a, rfl, rfl, a', hb, hu⟩
+            · cases h
+          | cons _ _ => cases h
+      · simp [hz] at h
+  · intro a z hp hz
+    simp [StrSpec.strSpec, hp, hz]
+  · intro hp
+    simp [StrSpec.strSpec, hp]
+
+/-- non-vacuity, kernel-checked = the failing input of seed C02-8 (`sstr inet 666538303a3a312565746830`): "fe80::1%eth0"
+    is the address fe80::1 with zone "eth0" and must be refused; without the zone it is accepted -/
+example : StrSpec.parseIP [102, 101, 56, 48, 58, 58, 49, 37, 101, 116, 104, 48] =
+    some ([254, 128, 0, 0, 0, 0, 0, 0, 0, 0, 0, 0, 0, 0, 0, 1], [101, 116, 104, 48]) := by decide
+example : StrSpec.strSpec .inet [102, 101, 56, 48, 58, 58, 49, 37, 101, 116, 104, 48] = .merr := by decide
+example : StrSpec.parseIP [102, 101, 56, 48, 58, 58, 49] = some ([254, 128, 0, 0, 0, 0, 0, 0, 0, 0, 0, 0, 0, 0, 0, 1], []) := by decide
+
+/-- date and integer columns: `ok` only for a string that is a date `YYYY-MM-DD` of the calendar (February 29 in leap
+    years only, …) — and then a `*string` gets back the very same string — resp. a decimal literal whose number the
+    column holds, written as the specification's bytes of that number; everything else must be refused -/
+theorem C02_date_int_string_no_silent_loss (s : Bytes) :
+    (∀ b back, StrSpec.strSpec .date s = .ok b back →
+      (s = [] ∧ b = [] ∧ back = []) ∨
+      (back = s ∧ ∃ d, StrSpec.parseDate s = some d ∧ b = beBytes 4 (d + 2147483648).toNat)) ∧
+    (∀ t w b back, StrSpec.intBytes t = some w → StrSpec.strSpec t s = .ok b back →
+      ∃ n, Marshal.parseDec s = some n ∧ fitsS w n = true ∧ b = tcEnc w n ∧ back = formatInt n) := by
+  refine ⟨?_, ?_⟩
+  · intro b back h
+    simp only [StrSpec.strSpec] at h
+    split at h
+    · injection h with h1 h2
+      rename_i hs
+      exact Or.inl ⟨hs, h1.symm, h2.symm⟩
+    · cases hd : StrSpec.parseDate s with
+      | none => rw [hd] at h; cases h
+      | some d =>
+        rw [hd] at h
+        injection h with h1 h2
+        exact Or.inr ⟨h2.symm, d, rfl, h1.symm⟩
+  · intro t w b back ht h
+    have key : ∀ (o : StrSpec.Outcome),
+        o = (match Marshal.parseDec s with
+          | none => StrSpec.Outcome.merr
+          | some n => if fitsS w n = true then .ok (tcEnc w n) (formatInt n) else .merr) →
+        o = .ok b back → ∃ n, Marshal.parseDec s = some n ∧ fitsS w n = true ∧ b = tcEnc w n ∧ back = formatInt n := by
+      intro o ho h
+      subst ho
+      cases hp : Marshal.parseDec s with
+      | none => rw [hp] at h; cases h
+      | some n =>
+        rw [hp] at h
+        simp only at h
+        split at h
+        · rename_i hf
+          injection h with h1 h2
+          exact ⟨n, rfl, hf, h1.symm, h2.symm⟩
+        · cases h
+    cases t <;> simp [StrSpec.intBytes] at ht <;> subst ht <;> exact key _ rfl h
+
+example : StrSpec.strSpec .date [50, 48, 50, 51, 45, 48, 50, 45, 50, 57] = .merr := by decide   -- "2023-02-29"
+example : StrSpec.parseDate [49, 57, 54, 57, 45, 49, 50, 45, 51, 49] = some (-1) := by decide    -- "1969-12-31"
 
 /-- FULL STATEMENT (does not hold): "… into any documented target type able to represent the value".  2^63 written by a
     bare uint64 into a varint column (00 80 00 00 00 00 00 00 00) decodes into *uint64 and *big.Int, but `*uint`, which
